@@ -222,6 +222,9 @@ def check(case, ctx):
                         w.call('eexport', engine[0], FMT[pre])
                         ctx.cls('export_preceded_by_another_writer')
                     rr = w.call('eexport', engine[0], FMT[fmt])
+                    diag = w.diagnostics()
+                    if diag.strip():
+                        raise Violation('export:diagnostic-on-stderr', '%s\nexporting the parsed tree again made the library print: %r' % (where, diag[:300]))
                     rr = [rr[0], rr[1] + b'\n', text.encode('utf-8', 'surrogateescape')]      # mmd_engine_convert = parse + this export + one newline
                     ctx.cls('export_without_reparse')
                 else:
